@@ -104,7 +104,7 @@ TolQ(t) == CASE t = 1 -> 10 [] t = 2 -> 1000 [] OTHER -> 0                 \* un
 \* "afterfail": the same objects, right after a call on them that raised (invalid method / mismatched lists)
 ExtraForms == {"pos", "kw", "negzero", "subnormal", "afterfail"}
 ExtraOn(c) == (c.R + c.M + c.s) % 2 = 0            \* the extra forms and the aliasing calls are rotated over the configurations
-CorrOptCombos == ({1, 2} \X {"f32", "f64"} \X {FALSE}) \cup ({0} \X ({"f32", "F/str", "ro/ro"} \cup ExtraForms) \X {FALSE}) \cup ({0} \X {"i64/f64h"} \X BOOLEAN)
+CorrOptCombos == ({1, 2} \X {"f32", "f64"} \X {FALSE}) \cup ({1} \X {"pos", "kw"} \X {FALSE}) \cup ({0} \X ({"f32", "F/str", "ro/ro"} \cup ExtraForms) \X {FALSE}) \cup ({0} \X {"i64/f64h"} \X BOOLEAN)
 ValTol(dt) == IF dt = "f32" THEN 5 ELSE ExactTol
 CorrOptV(c, r, nums, stackedCover, bs) ==      \* bs: the float64 / default-tol stacked score of the same sets
     LET den == 2 * c.R * L
@@ -131,7 +131,9 @@ CorrOptV(c, r, nums, stackedCover, bs) ==      \* bs: the float64 / default-tol 
     ELSE IF AbsI(r.val - want) > ValTol(r.dt) THEN "CorrOptValue"
     ELSE "ok"
 \* mixed dtypes between the two arguments: the metric is a function of the VALUES
-CongMixes == ({"i64/f64h", "f32/f64", "F/str", "ro/ro"} \X BOOLEAN) \cup (ExtraForms \X {FALSE})
+\* <<form, swap, absolute_value>>: the call forms pass EVERY published parameter explicitly, each flag in both values
+CongMixes == ({"i64/f64h", "f32/f64", "F/str", "ro/ro"} \X BOOLEAN \X {TRUE}) \cup (ExtraForms \X {FALSE} \X {TRUE})
+             \cup ({"pos", "kw"} \X {FALSE} \X {FALSE})
 PermuteMixes == {<<"A", "B", "i64/f64h">>, <<"B", "A", "i64/f64h">>, <<"A", "B", "F/str">>, <<"A", "B", "ro/ro">>}
                 \cup {<<"A", "B", f>> : f \in {"pos", "kw", "afterfail"}}
 \* ALIASING: the first set passed as BOTH arguments (one list object / one CP tensor): congruence 1 with the identity,
@@ -147,7 +149,7 @@ OptsV(c, o, bs) ==
     IF c.s > 3 THEN (IF o.cong = <<>> /\ o.corr = <<>> /\ o.permute = <<>> THEN "ok" ELSE "OptForms")
     ELSE IF {<<o.corr[k].tol, o.corr[k].dt, o.corr[k].swap, o.corr[k].method>> : k \in DOMAIN o.corr}
               # {<<t[1], t[2], t[3], m>> : t \in {u \in CorrOptCombos : u[2] \in ExtraForms => ExtraOn(c)}, m \in Methods} THEN "OptForms"
-    ELSE IF {<<o.cong[k].mix, o.cong[k].swap>> : k \in DOMAIN o.cong} # {u \in CongMixes : u[1] \in ExtraForms => ExtraOn(c)} THEN "OptForms"
+    ELSE IF {<<o.cong[k].mix, o.cong[k].swap, o.cong[k].abs>> : k \in DOMAIN o.cong} # {u \in CongMixes : u[1] \in ExtraForms => ExtraOn(c)} THEN "OptForms"
     ELSE IF {<<o.permute[k].ref, o.permute[k].target, o.permute[k].mix>> : k \in DOMAIN o.permute} # {u \in PermuteMixes : u[3] \in ExtraForms => ExtraOn(c)} THEN "OptForms"
     ELSE With([m \in 1..c.M |-> CorrNum(CosMat(c.A[m], c.B[m], TRUE), L)], LAMBDA nums :
          With(CoverBoth(StackRows(c.A, c.M), StackRows(c.B, c.M)), LAMBDA sc :
